@@ -68,10 +68,10 @@ def essence(st: Any) -> list:
 
 
 def h_roundtrip(ctx: Any, code: str, n: int, script: str, stacks: Any, decimal: bool = False,
-                trim: bool = True, corrupt: bool = True, unknown_seat: int = -1) -> None:
+                trim: bool = True, corrupt: bool = True, unknown_seat: int = -1, deck: str = 'identity') -> None:
     from pokerkit.notation import HandHistory
     C.native_hands()
-    C.set_deck_order('identity')
+    C.set_deck_order(deck)
     warnings.simplefilter('ignore')
     conv = (lambda x: Decimal(x) / 2) if decimal else (lambda x: x)
     stacks = tuple(conv(s) for s in stacks)
@@ -452,6 +452,14 @@ def jobs(tier: str, seed: int) -> list[dict]:
                     must_cover=['round-trip']))
     out.append(dict(name='roundtrip/NT/n2/decimal', fn='h_roundtrip', traced=False,
                     params=dict(code='NT', n=2, script='rc', stacks=(61, 61), decimal=True), budget_s=B,
+                    must_cover=['round-trip']))
+    # non-integral chips AND a pot divided between players (hi/lo halves of 1.75 resp. 2.5): the division helper
+    # the history carries must be the game's
+    out.append(dict(name='roundtrip/F7S8/n3/decimal/split', fn='h_roundtrip', traced=False,
+                    params=dict(code='F7S8', n=3, script='Rfc', stacks=(61, 61, 61), decimal=True), budget_s=B,
+                    must_cover=['round-trip']))
+    out.append(dict(name='roundtrip/FO8/n2/decimal/split', fn='h_roundtrip', traced=False,
+                    params=dict(code='FO8', n=2, script='Rc', stacks=(61, 61), decimal=True, deck='rot5'), budget_s=B,
                     must_cover=['round-trip']))
     for code, n, stacks, script in (('NT', 2, (60, 60), 'cc'), ('F7S', 2, (60, 60), 'bc'), ('N2L1D', 2, (60, 60), 'ccds')):
         out.append(dict(name=f'roundtrip/{code}/n{n}/{script}/unknown-cards', fn='h_roundtrip', traced=False,
